@@ -171,6 +171,13 @@ def part_namecmp(chk, drv, runner):
     npairs = wf_pairs = eq_distinct = bytewise_differs = 0
     classes = {}
     bytewise_example = None
+    per_sig = {}
+
+    def report(rep, signature):
+        # every failing pair is counted; the first three of every kind are reported with their input
+        per_sig[signature] = per_sig.get(signature, 0) + 1
+        if per_sig[signature] <= 3:
+            chk.violation(rep, signature=signature)
     for s, line, o, m in zip(sets, lines, impl, model):
         desc = {"driver_line": line}
         try:
@@ -181,8 +188,8 @@ def part_namecmp(chk, drv, runner):
             frows = f[2:].split("/")
             assert len(us) == len(crows) == len(frows) == len(s)
         except Exception:
-            chk.violation({"kind": "property-fails-on-implementation", "part": "namecmp", "case": desc, "why": "driver failed: " + o[:300]},
-                          signature="C18:names:driver-failed")
+            report({"kind": "property-fails-on-implementation", "part": "namecmp", "case": desc, "why": "driver failed: " + o[:300]},
+                   "C18:names:driver-failed")
             continue
         if o.rsplit("|", 1)[0] != m:
             tie.append((desc, o.rsplit("|", 1)[0], m))
@@ -195,19 +202,19 @@ def part_namecmp(chk, drv, runner):
                     "utf8bom" if s[i][:3] == b"\xef\xbb\xbf" else "pdfdoc") + ("" if texts[i] is not None else "-illformed")
             classes[kind] = classes.get(kind, 0) + 1
             if texts[i] is not None and utf8_of(texts[i]) != us[i]:
-                chk.violation({"kind": "property-fails-on-implementation", "part": "namecmp", "case": {"driver_line": "nncmp " + hx(s[i])},
-                               "why": "getUTF8Value of a well-formed PDF text string is not the UTF-8 form of its text (ISO 32000-2 7.9.2.2)",
-                               "implementation": us[i].hex(), "expected": utf8_of(texts[i]).hex()}, signature="C18:names:utf8-value")
+                report({"kind": "property-fails-on-implementation", "part": "namecmp", "case": {"driver_line": "nncmp " + hx(s[i])},
+                        "why": "getUTF8Value of a well-formed PDF text string is not the UTF-8 form of its text (ISO 32000-2 7.9.2.2)",
+                        "implementation": us[i].hex(), "expected": utf8_of(texts[i]).hex()}, "C18:names:utf8-value")
         # (2) the implementation's answers form a total preorder, and the public route agrees with compareKeys
         bad = check_preorder(crows)
         if bad:
-            chk.violation({"kind": "property-fails-on-implementation", "part": "namecmp", "case": desc,
-                           "why": "compareKeys is not a total preorder on this key set: " + bad, "implementation": c[:800]},
-                          signature="C18:names:not-a-total-preorder")
+            report({"kind": "property-fails-on-implementation", "part": "namecmp", "case": desc,
+                    "why": "compareKeys is not a total preorder on this key set: " + bad, "implementation": c[:800]},
+                   "C18:names:not-a-total-preorder")
         if crows != frows:
-            chk.violation({"kind": "property-fails-on-implementation", "part": "namecmp", "case": desc,
-                           "why": "find() on one-entry trees does not follow compareKeys", "compareKeys": c[:600], "find": f[:600]},
-                          signature="C18:names:find-vs-compare")
+            report({"kind": "property-fails-on-implementation", "part": "namecmp", "case": desc,
+                    "why": "find() on one-entry trees does not follow compareKeys", "compareKeys": c[:600], "find": f[:600]},
+                   "C18:names:find-vs-compare")
         # (3) well-formed pairs: order of the texts
         for i in range(n):
             for j in range(n):
@@ -218,10 +225,10 @@ def part_namecmp(chk, drv, runner):
                 wf_pairs += 1
                 want = sign(texts[i], texts[j])
                 if crows[i][j] != want:
-                    chk.violation({"kind": "property-fails-on-implementation", "part": "namecmp",
-                                   "case": {"driver_line": "nncmp %s,%s" % (hx(s[i]), hx(s[j]))},
-                                   "why": "keys are not ordered as their texts: compareKeys says %s, the texts compare %s" % (crows[i][j], want)},
-                                  signature="C18:names:text-order")
+                    report({"kind": "property-fails-on-implementation", "part": "namecmp",
+                            "case": {"driver_line": "nncmp %s,%s" % (hx(s[i]), hx(s[j]))},
+                            "why": "keys are not ordered as their texts: compareKeys says %s, the texts compare %s" % (crows[i][j], want)},
+                           "C18:names:text-order")
                 if want != "=" and sign(s[i], s[j]) != want:
                     bytewise_differs += 1
                     if bytewise_example is None and s[i][:1] not in (b"\xfe", b"\xef") and s[j][:1] not in (b"\xfe", b"\xef"):
@@ -239,6 +246,7 @@ def part_namecmp(chk, drv, runner):
     pc["pairs_where_text_order_differs_from_bytewise_order_of_the_stored_strings"] = bytewise_differs
     pc["string_classes"] = classes
     pc["model_differs"] = len(tie)
+    pc["failing_pairs_or_sets_by_kind"] = per_sig
     # the order of the texts is not the byte-wise order of the stored strings: a tree sorted byte-wise is searched wrongly
     probe_bytewise(chk, drv, bytewise_example)
 
